@@ -187,6 +187,20 @@ for _k, _m in {"C10": "mon_C10", "C07": "mon_C07", "C02": "mon_C02w", "C09": "mo
                "C14": "mon_C14s", "C15": "mon_C15r", "C16": "mon_C16c", "C17": "mon_C17", "C20": "mon_C20"}.items():
     PROPS[_k]["monitor"] = _m
 
+# the public pure helpers called directly (harness/src/math.rs, coq/Model/CasesMath.v): thousands of numeric points per run
+# (u128 extremes, 1-unit amounts, fee sums of exactly 20%, decimals 0..24, amplifications 1..u64::MAX), compared with the
+# model's functions of the same names; the math monitors are the decidable numeric forms of the properties
+for _k, _m in {"C02": None, "C03": "mon_math_C03", "C04": "mon_math_C04", "C12": "mon_math_C12", "C13": None, "C19": "mon_math_C19"}.items():
+    PROPS[_k]["families"] = PROPS[_k]["families"] + [("math-fn", 960, 9600)]
+    if _m:
+        PROPS[_k]["math_monitor"] = _m
+    PROPS[_k]["level_text"] = (PROPS[_k]["level_text"] or "") + (
+        " Numeric kernels tied to the code directly as well: family math-fn calls the contracts' public pure helpers (compute_swap "
+        "for both pool types, compute_offer_amount followed by the swap of quote + 1, compute_d, compute_d_with_pool_info, "
+        "compute_lp_mint_amount_for_stableswap_deposit, assert_slippage_tolerance, within_one_percent) on ~1000 (quick) / ~10000 "
+        "(thorough) boundary-aimed numeric points per run and compares every answer (values, errors, panics) with the model's "
+        "function of the same name" + ("; monitor %s evaluates the property's numeric clause on the implementation's answers." % _m if _m else "."))
+
 # additions to the claim texts: whole-transaction theorems (coq/Proofs/TxBalances.v) and monitors
 _EXTRA = {
  "C02": "THE LOCKED MINIMUM OVER ALL HISTORIES (LockedLiquidity.v): the pool manager's surplus (balance minus all reserves) never decreases, per denom, through any history (C02_surplus_never_decreases, from the chain induction process_pool); the first deposit into a constant-product pool adds exactly MINIMUM_LIQUIDITY_AMOUNT of the LP denom to it (C02_first_deposit_locks_the_minimum), hence in every later world of every history at least that much LP is held by the pool manager beyond all reserves and can never be redeemed (C02_minimum_liquidity_stays_locked_forever; kernel-evaluated example ending with exactly 1000 locked). Whole-transaction theorem (C02_withdrawal_transaction_moves_exactly_these_balances): a withdrawal pays the sender exactly the floored pro-rata refunds out of the pool manager, destroys exactly the LP sent and changes no other bank balance. Monitor mon_C02w (x*y/S^2 of constant-product pools never decreases through a deposit / withdrawal; LP supplies move only then; a withdrawal pays exactly floor(reserve*burned/supply) per asset, takes exactly that off the reserves and burns exactly the LP sent).",
